@@ -59,7 +59,7 @@ def make_routes(work, xml_path, second_xml=None):
     os.makedirs(pkg)
     shutil.copy(xml_path, os.path.join(pkg, 'lex.xml'))
     for extra in ('README.md', 'LICENSE', 'citation.bib'):
-        open(os.path.join(pkg, extra), 'w').write('extra file\n')
+        open(os.path.join(pkg, extra), 'w').write('ILI identifiers in this wordnet follow CILI 1.0.\nextra file\n')
     routes['package'] = pkg
     coll = os.path.join(work, 'coll')
     os.makedirs(coll)
@@ -164,6 +164,27 @@ def _job(version):
                 problems.append(f'{version}: extension through the in-memory route differs from the file route')
             if len(d1['lexicons']) != 3:
                 problems.append(f'{version}: extension with installed base was not added')
+        # a small resource (decompressed size below one buffer of the copy loop) through the compressed routes
+        cases += 1
+        tiny = os.path.join(work, 'tiny.xml')
+        lmf.dump({'lmf_version': version, 'lexicons': [lmfgen.minimal_lexicon('tiny')]}, tiny)
+        ref = None
+        for suffix, opener in (('', None), ('.gz', gzip.open), ('.xz', lzma.open)):
+            path = tiny + suffix
+            if opener:
+                with open(tiny, 'rb') as src, opener(path, 'wb') as dst:
+                    shutil.copyfileobj(src, dst)
+            db = _fresh(wn, work, f'{version}_tiny{suffix}')
+            try:
+                wn.add(path, progress_handler=None)
+            except Exception as exc:   # noqa: BLE001
+                problems.append(f'{version} tiny resource via {suffix or "xml"}: {type(exc).__name__}: {exc}')
+                continue
+            d = logical_dump(db)
+            if ref is None:
+                ref = d
+            elif d != ref:
+                problems.append(f'{version} tiny resource via {suffix}: database differs from the plain-xml route')
         cases += 1
         first = os.path.join(work, 'first.xml')
         lmf.dump({'lmf_version': version, 'lexicons': [lmfgen.minimal_lexicon('m2')]}, first)
